@@ -48,7 +48,7 @@ def rule_execute_string(ctx):
     prog = ctx.prog
     ctx.analysed("conn.FakeSnowflakeConnection.execute_string", "conn.FakeSnowflakeConnection.cursor")
     for mode in (None, "duckdb.CatalogException"):
-        for dict_cursor, remove_comments in ((False, False), (True, False), (False, True)):
+        for dict_cursor, remove_comments, return_cursors in ((False, False, True), (True, False, True), (False, True, True), (False, False, False)):
             hooks, sessions = [], []
 
             def fac():
@@ -56,7 +56,7 @@ def rule_execute_string(ctx):
                 hooks.append(h)
                 return h
 
-            def run(I, dict_cursor=dict_cursor, remove_comments=remove_comments):
+            def run(I, dict_cursor=dict_cursor, remove_comments=remove_comments, return_cursors=return_cursors):
                 duck, conn, cur = make_session()
                 from ..execmodel import R
                 from ..values import Dct
@@ -66,6 +66,8 @@ def rule_execute_string(ctx):
                 kw = {"cursor_class": cc}
                 if remove_comments:
                     kw["remove_comments"] = Const(True)
+                if not return_cursors:
+                    kw["return_cursors"] = Const(False)  # the statements run all the same; only the returned list is empty
                 return I.call(I.getattr(conn, "execute_string"), [Sym("SQL_TEXT", typ="str", truthy=True)], kw, None)
 
             for p, h, conn in zip(explore(prog, fac, run, max_paths=64), hooks, sessions):
@@ -113,10 +115,11 @@ def rule_execute_string(ctx):
                                       f"text parsed as Snowflake SQL: textual pre-processing cannot tell `--`, `/*` or `;` inside a string literal from "
                                       f"a comment or a separator")
                     ok = p.outcome == "return" and rendered == ["part_a", "part_b"]
-                    ctx.ob("C16.a", f"execute_string executes exactly the two statements, in order (dict={dict_cursor})", ok,
+                    ctx.ob("C16.a", f"execute_string executes exactly the two statements, in order (dict={dict_cursor}, return_cursors={return_cursors})", ok,
                            "fakesnow/conn.py", str(rendered))
                     if not ok:
-                        ctx.violation("C16.a", "conn", "FakeSnowflakeConnection.execute_string", f"executed parts {rendered}", "fakesnow/conn.py",
+                        ctx.violation("C16.a", "conn", "FakeSnowflakeConnection.execute_string",
+                                      f"executed parts {rendered}" + ("" if return_cursors else " with return_cursors=False"), "fakesnow/conn.py",
                                       f"of the parts [INSERT, comment-only, empty, UPDATE] execute_string executes {rendered or 'nothing'} "
                                       f"({'raises ' + p.value.cls if p.outcome == 'raise' else 'returns'}); expected the INSERT then the UPDATE")
                         continue
@@ -134,7 +137,7 @@ def rule_execute_string(ctx):
                                       f"execute_string created {len(news)} cursor(s) with dict flags {flags} for two statements and cursor_class "
                                       f"{'DictCursor' if dict_cursor else 'SnowflakeCursor'}")
                     ret = p.value
-                    okr = isinstance(ret, Lst) and len(ret.items) == 2
+                    okr = isinstance(ret, Lst) and len(ret.items) == (2 if return_cursors else 0)
                     ctx.ob("C16.a", "returns one cursor per executed statement", okr, "fakesnow/conn.py")
                 else:
                     ok = p.outcome == "raise" and rendered == ["part_a"]
